@@ -375,6 +375,67 @@ def check_population(ctx, tpl):
     ctx.add('population', n + 4, n + 4)
 
 
+def check_value_alphabet(ctx, tpl):
+    """Storable property values: an uploaded item comes back with equal content (value alphabet outside the BFS universe)."""
+    import pandas
+    import pygaps
+    from pygaps.core.baseisotherm import BaseIsotherm
+    from pygaps.parsing import sqlite as q
+    ev = nt = 0
+    work = os.path.join(core.scratch(), 'values.db')
+    values = [('float', 2.5), ('negative float', -0.125), ('text', 'plain text'), ('unicode', 'µ-pore ✓'), ('bool', True), ('bool false', False),
+              ('int', 5), ('big int', 12345678901), ('numeric text', '5'), ('numeric text sci', '1e3'), ('text true', 'TRUE')]
+    for vname, val in values:
+        universe('fresh')
+        shutil.copyfile(tpl, work)
+        iso = BaseIsotherm(material='matV', adsorbate='gasV', temperature=300.0, prop=val, **rs.UNITS)
+        o = core.call(q.isotherm_to_db, iso, db_path=work, verbose=False)
+        ev += 1
+        if not o.ok:
+            if o.kind != 'ParsingError':
+                ctx.violate(core.make_violation({'check': 'value-upload', 'value': vname, 'kind': o.kind}, f'isotherm with metadata {val!r} ({vname}): upload {o.brief()[:150]}', {'value': val}))
+            continue
+        universe('fresh')
+        g = core.call(q.isotherms_from_db, db_path=work, verbose=False)
+        nt += 1
+        if not g.ok or len(g.value) != 1 or g.value[0].iso_id != iso.iso_id or type(g.value[0].properties.get('prop')) is not type(val):
+            got = g.value[0].properties.get('prop') if g.ok and g.value else g.brief()
+            ctx.violate(core.make_violation({'check': 'value-not-preserved', 'item': 'isotherm metadata', 'value': vname},
+                                            f'isotherm metadata {val!r} ({vname}) comes back from the database as {got!r}: the retrieved isotherm is not equal to the stored one',
+                                            {'value': val}, val, got))
+        elif core.call(q.isotherm_delete_db, g.value[0], db_path=work, verbose=False).ok is False:
+            ctx.violate(core.make_violation({'check': 'value-delete-through-retrieved', 'value': vname}, f'isotherm with metadata {val!r} cannot be deleted through the retrieved object', {}))
+    # list-valued properties of materials and adsorbates
+    for kind, mk, up, down in (('material', lambda: pygaps.Material('matL', density=1.5, tags=['a', 'b', 'c']), q.material_to_db, q.materials_from_db),
+                               ('adsorbate', lambda: pygaps.Adsorbate('gasL', formula='X', alias=['x1', 'x2'], tags=['a', 'b']), q.adsorbate_to_db, q.adsorbates_from_db)):
+        universe('fresh')
+        shutil.copyfile(tpl, work)
+        item = mk()
+        o = core.call(up, item, db_path=work, verbose=False)
+        g = core.call(down, db_path=work, verbose=False)
+        ev += 1
+        nt += 1
+        ok = o.ok and g.ok and len(g.value) == 1 and rs.rows_equal(rs.prop_rows({k: v for k, v in g.value[0].to_dict().items() if k != 'name'}),
+                                                                     rs.prop_rows({k: v for k, v in item.to_dict().items() if k != 'name'}))
+        if not ok:
+            ctx.violate(core.make_violation({'check': 'value-not-preserved', 'item': f'{kind} list property', 'value': 'list'},
+                                            f'{kind} with a list-valued property comes back as {g.value[0].to_dict() if g.ok and g.value else g.brief()} instead of {item.to_dict()}', {}))
+    # user-assigned branch marks of a point isotherm
+    universe('fresh')
+    shutil.copyfile(tpl, work)
+    df = pandas.DataFrame({'pressure': [0.1, 0.4, 0.3, 0.2], 'loading': [1.0, 2.5, 2.0, 1.8], 'branch': [0, 0, 0, 0]})
+    iso = pygaps.PointIsotherm(isotherm_data=df, pressure_key='pressure', loading_key='loading', material='matV', adsorbate='gasV', temperature=300.0, **rs.UNITS)
+    o = core.call(q.isotherm_to_db, iso, db_path=work, verbose=False)
+    universe('fresh')
+    g = core.call(q.isotherms_from_db, db_path=work, verbose=False)
+    ev += 1
+    nt += 1
+    if o.ok and (not g.ok or len(g.value) != 1 or g.value[0].data_raw['branch'].tolist() != [0, 0, 0, 0] or g.value[0].iso_id != iso.iso_id):
+        ctx.violate(core.make_violation({'check': 'value-not-preserved', 'item': 'point isotherm branch marks', 'value': 'user-assigned'},
+                                        f'user-assigned branch marks [0,0,0,0] on non-monotonic pressures come back as {g.value[0].data_raw["branch"].tolist() if g.ok and g.value else g.brief()}', {}))
+    ctx.add('value_alphabet', ev, nt)
+
+
 def run(ctx):
     import pygaps
     base_registries()
@@ -388,6 +449,7 @@ def run(ctx):
     ctx.violate(res.violations)
     check_iso_property_types(ctx, tpl)
     check_population(ctx, tpl)
+    check_value_alphabet(ctx, tpl)
     ctx.cov.update(states=res.states, transitions=res.transitions, traces_validated_against_impl=res.transitions,
                    max_depth=res.max_depth, level_sizes=res.level_sizes,
                    outcomes={f'{a}:{b}': n for (a, b), n in sorted(res.outcomes.items())},
